@@ -19,7 +19,7 @@ Trees == IF Depth = 1 THEN Level1 ELSE Level1 \cup Comb(Few)
 MarkSets == {<<>>, <<<<"k", "x">>>>, <<<<"k", "y">>>>, <<<<"k", "z">>, <<"j", "x">>>>}
 
 PostCases == {[kind |-> "post", cfg |-> c, marks |-> m, n |-> n, L |-> l, pfx |-> pf, sfx |-> sf, seed |-> sd, item |-> it] :
-                c \in Trees, m \in MarkSets, n \in 0..MaxN, l \in {0, 2, 4}, pf \in 0..1, sf \in 0..1, sd \in 1..2,
+                c \in Trees, m \in MarkSets, n \in 0..MaxN, l \in {0, 2, 4}, pf \in 0..1, sf \in 0..1, sd \in 0..1,
                 it \in {"gen", "cond"}}
              \cup {[kind |-> "post", cfg |-> c, marks |-> <<<<"k", "x">>>>, n |-> MaxN, L |-> 3, pfx |-> 2, sfx |-> 2, seed |-> 3, item |-> it] :
                 c \in Trees, it \in {"seq", "cls"}}
